@@ -561,6 +561,14 @@ fn hist_case(c: &J, workers: &[Worker]) -> J {
     json!({"k": "hist", "id": c["id"], "ok": true, "hint": hint, "obs": obs})
 }
 
+/// Runs `f` on a new thread and returns its result; a panic inside is re-raised here (the caller reports it).
+fn on_fresh_thread<F: FnOnce() -> J + Send>(f: F) -> J {
+    std::thread::scope(|s| match s.spawn(f).join() {
+        Ok(v) => v,
+        Err(e) => std::panic::resume_unwind(e),
+    })
+}
+
 fn main() {
     std::panic::set_hook(Box::new(|_| {}));
     let workers = vec![Worker::new(), Worker::new()];
@@ -605,14 +613,18 @@ fn main() {
                 pool.targets = c["targets"].as_array().unwrap().iter().map(|t| hexs(t.as_str().unwrap())).collect();
                 json!({"k": "pool", "n": pool.metas.len()})
             }
-            "targets" => {
+            // The probing cases call `Collect::enabled` on stacks with per-subscriber filters without dispatching anything
+            // afterwards; that leaves the thread's filter state as it is (C07's finding F3), and a later span creation on the
+            // same thread would trip a debug assertion inside the registry.  Each of them therefore runs on a thread of its
+            // own, so the history cases (main thread + two workers) always start from a clean thread-local state.
+            "targets" => on_fresh_thread(|| {
                 let s = hexs(c["s"].as_str().unwrap());
                 match s.parse::<Targets>() {
                     Ok(t) => targets_report(&c["id"], "targets", t, &pool),
                     Err(e) => json!({"k": "targets", "id": c["id"], "ok": false, "err": e.to_string()}),
                 }
-            }
-            "tapi" => {
+            }),
+            "tapi" => on_fresh_thread(|| {
                 let mut t = Targets::new();
                 for e in c["entries"].as_array().unwrap() {
                     let lvl = FILTERS[e[1].as_u64().unwrap() as usize];
@@ -622,8 +634,8 @@ fn main() {
                     };
                 }
                 targets_report(&c["id"], "tapi", t, &pool)
-            }
-            "env" => env_case(&c, &pool),
+            }),
+            "env" => on_fresh_thread(|| env_case(&c, &pool)),
             "hist" => hist_case(&c, &workers),
             _ => json!({"k": "unknown"}),
         }));
